@@ -11,12 +11,13 @@ no bound — the Python would raise KeyError, which never happens for variables 
 `basic` is the set of row heads, `non_basic` its complement among the known variables.
 
 Faithful details: `reduce_pairs` (group by variable, add, sort by name; zero sums are kept);
-`aij` = first jar of that variable; `check` picks the LAST violated basic variable in sorted order
-(the loop overwrites `xi`) and the FIRST suitable non-basic variable of its reduced row; the two
+`aij` = first jar of that variable; `check` picks the FIRST violated basic variable in sorted order
+(Bland's rule, after fix C16-5; before it the loop kept the LAST one and could cycle) and the FIRST
+suitable non-basic variable of its reduced row; the two
 repair blocks of `check` are `if … if …` in Python — after a repair of a lower-bound violation the
 variable sits on its lower bound, which is `≤` its upper bound, so the second block cannot fire for
-it and the model uses `else if`.  Termination of `check` is not proved (the variable choice is not
-Bland's rule): the model takes fuel.
+it and the model uses `else if`.  Termination of `check` is not proved in Lean (with Bland's rule it
+holds by Dutertre–de Moura's argument): the model takes fuel.
 -/
 namespace Holpy.C16.Simplex
 
@@ -107,13 +108,13 @@ def belowHi (s : SState) (x : Var) : Bool := match s.hi x with | some u => decid
 /-- `mapping[x] > bound[x][0]` -/
 def aboveLo (s : SState) (x : Var) : Bool := match s.lo x with | some l => decide (l < s.mapping x) | none => true
 
-/-- the last (greatest) basic variable outside its bounds -/
+/-- the first (smallest) basic variable outside its bounds (fix C16-5: the loop `break`s at the first one) -/
 def pickViolated (s : SState) : Option Var :=
   s.rows.foldl (fun best r =>
     if ltLo s r.1 || gtHi s r.1 then
       match best with
       | none => some r.1
-      | some b => if b < r.1 then some r.1 else some b
+      | some b => if r.1 < b then some r.1 else some b
     else best) none
 
 inductive Verdict where
@@ -169,6 +170,11 @@ structure Ineq where
   jars : Jars            -- as given (not reduced)
   bound : Rat
   deriving Inhabited
+
+/-- `x ≥ b` / `x ≤ b` with coefficient 1: asserted on the variable itself, no slack variable -/
+def isUnit (q : Ineq) : Bool := match q.jars with | [(_, c)] => c == 1 | _ => false
+/-- an upper bound on the number of slack variables `add_ineqs` introduces -/
+def slackCount (qs : List Ineq) : Nat := (qs.filter (fun q => !isUnit q)).length
 
 def emptyState : SState := ⟨[], fun _ => 0, fun _ => none, fun _ => none, [], 0, []⟩
 
